@@ -10,6 +10,8 @@
 (*                  Expected to violate BoundedDepth and NoUninit (MC_DnsParse_asfound*.cfg).                          *)
 (*   PtrMask = 1024 a 10-bit offset mask: pointers to offsets >= 1024 are followed to the wrong place.                  *)
 (*                  Expected to violate Conforms on the LARGE replies (MC_DnsParse_mask10.cfg).                        *)
+(*   LabelBuf = 64  labels copied into char[64] although length octets 64..191 are taken as lengths (the flag `uninit`  *)
+(*                  stands for any memory-unsafe access). Expected to violate NoUninit (MC_DnsParse_labelbuf64.cfg).   *)
 (*   ResetOnLabel   a limit that counts only consecutive pointers: a loop through an ordinary label is never cut.      *)
 (*                  Expected to violate BoundedDepth (MC_DnsParse_resetonlabel.cfg).                                   *)
 (*                                                                                                                     *)
@@ -18,6 +20,7 @@
 EXTENDS DnsGen, TLC
 CONSTANTS Fixed, MaxJumps, Dgrams,
           PtrMask,       \* pointer offsets are taken modulo this: 16384 (14 bits) intended; 1024 = a 10-bit mask typo
+          LabelBuf,      \* 0: the label buffer is sized by the label (as in the code); n > 0: a fixed buffer of n bytes
           ResetOnLabel   \* defective limit: only CONSECUTIVE pointers are counted (an ordinary label resets the count)
 VARIABLES d, pc, pos, stack, ret, qd, an, cur, out, err, uninit, steps
 pvars == <<d, pc, pos, stack, ret, qd, an, cur, out, err, uninit, steps>>
@@ -79,6 +82,8 @@ NameStep ==
               IN IF tgt >= Len(d) /\ Fixed THEN Fail
                  ELSE /\ stack' = Append(SetTop([f EXCEPT !.pos = after]), FrameC(IF tgt < Len(d) THEN tgt ELSE after, NewChain(f)))
                       /\ UNCHANGED <<d, pc, pos, ret, qd, an, cur, out, err, uninit>> /\ Step
+       ELSE IF Has(d, f.pos + 1, len) /\ LabelBuf > 0 /\ len >= LabelBuf
+            THEN Stop(FALSE, TRUE)               \* label + terminator written behind a fixed buffer: memory-unsafe access
        ELSE IF Has(d, f.pos + 1, len)
             THEN /\ stack' = SetTop([f EXCEPT !.pos = f.pos + 1 + len, !.labels = Append(f.labels, Bytes(d, f.pos + 1, len))])
                  /\ UNCHANGED <<d, pc, pos, ret, qd, an, cur, out, err, uninit>> /\ Step
@@ -137,7 +142,7 @@ Reported == pc = "done" /\ ~err
 \* "reports only addresses and names that are actually encoded in that datagram"
 Safe == Reported => OnlyEncoded(d, [i \in 1..Len(out.a) |-> out.a[i].ip], [i \in 1..Len(out.cn) |-> JoinDots(out.cn[i].labels)])
 \* well-formed replies: exactly the reference result
-Conforms == pc = "done" => LET c == Classify(d, QLabels) IN c.cls = "ok" => ~err /\ out = c.res
+Conforms == pc = "done" => LET c == ClassifyT(d, QLabels) IN c.cls \in {"ok", "tolerated"} => ~err /\ out = c.res
 \* "terminates": the number of steps is bounded by the datagram (each step consumes input, ends a section entry, or
 \* follows one of at most MaxJumps pointers)
 Terminates == Fixed => steps <= 6 * (Len(d) + 4)
